@@ -647,7 +647,7 @@ def batch(arg):
         if not out["samples"] and kind == "expr":
             out["samples"].append({"case": i, "text": files["m.emb"][:700]})
     out["stats"] = dict(STATS)
-    out["viol"] = out["viol"][:40]
+    out["viol"] = common.cap_by_mech(out["viol"])
     return out
 
 
